@@ -179,7 +179,7 @@ func (r *Rollback) performRollback(currentRelease, targetRelease *release.Releas
 	// pre-rollback hooks
 	if !r.DisableHooks {
 		if err := r.cfg.execHook(targetRelease, release.HookPreRollback, r.WaitStrategy, r.Timeout); err != nil {
-			return targetRelease, err
+			return r.failRollback(targetRelease, err)
 		}
 	} else {
 		slog.Debug("rollback hooks disabled", "name", targetRelease.Name)
@@ -247,7 +247,7 @@ func (r *Rollback) performRollback(currentRelease, targetRelease *release.Releas
 	// post-rollback hooks
 	if !r.DisableHooks {
 		if err := r.cfg.execHook(targetRelease, release.HookPostRollback, r.WaitStrategy, r.Timeout); err != nil {
-			return targetRelease, err
+			return r.failRollback(targetRelease, err)
 		}
 	}
 
@@ -265,4 +265,15 @@ func (r *Rollback) performRollback(currentRelease, targetRelease *release.Releas
 	targetRelease.Info.Status = release.StatusDeployed
 
 	return targetRelease, nil
+}
+
+// failRollback records the release created by a rollback whose hooks failed as failed, so that it is not left
+// pending (a pending release blocks every later operation on the release).
+func (r *Rollback) failRollback(targetRelease *release.Release, err error) (*release.Release, error) {
+	msg := fmt.Sprintf("Rollback %q failed: %s", targetRelease.Name, err)
+	slog.Warn(msg)
+	targetRelease.Info.Status = release.StatusFailed
+	targetRelease.Info.Description = msg
+	r.cfg.recordRelease(targetRelease)
+	return targetRelease, err
 }
